@@ -1,5 +1,6 @@
 """C10 — recipe text is inert: user strings never become markup."""
 import re
+from fractions import Fraction
 
 from recipe_grid.recipe import Ingredient, Step, Reference, SubRecipe, Quantity, Proportion
 from recipe_grid.scaled_value_string import ScaledValueString as SVS
@@ -298,6 +299,41 @@ def check_markdown_text(name):
     return out
 
 
+def check_file_names():
+    """the stand-alone page of a document (titled, untitled, with a lower-level heading first) under a file name full of markup characters, at several
+    scales: the file's name never becomes mark-up - the page has the same elements as the page of the same document under a plain name"""
+    import shutil
+    from .. import gen_site
+    from recipe_grid.static_site.standalone_page import generate_standalone_page
+    out = []
+    docs = {"untitled": "Some text with {2} eggs.\n\n    1 kg x\n", "titled": "# Pancakes for 2\n\nText.\n\n    1 kg x\n",
+            "lower heading": "## Pancakes for 2\n\n    1 kg x\n", "markup title": "# *Fancy* pancakes\n\n    1 kg x\n"}
+    names = ["pancakes <b>& more", "x &amp; y", "q\"r' s", "a <script>alert(1)<\\script> b", "t <i>", "&lt;b&gt;"]
+    scratch = gen_site.scratch_root()
+    try:
+        for kind, doc in docs.items():
+            for kw in ({}, {"scale": 2}, {"scale": Fraction(1, 2)}, {"scale": 1.5}):
+                plain = scratch / "plain.md"
+                plain.write_text(doc)
+                ref_root, _ = htmltok.tree(generate_standalone_page(plain, embed_local_links=False, **kw))
+                ref_tags = sorted(n.tag for n in ref_root.iter())
+                for nm in names:
+                    f = scratch / (nm + ".md")
+                    f.write_text(doc)
+                    try:
+                        page = generate_standalone_page(f, embed_local_links=False, **kw)
+                    except Exception as e:  # noqa
+                        out.append(("C10:text-breaks-rendering:%s" % type(e).__name__, "stand-alone page of %r (%s, %r): %s" % (nm, kind, kw, str(e)[:100])))
+                        continue
+                    root, problems = htmltok.tree(page)
+                    if problems or sorted(n.tag for n in root.iter()) != ref_tags:
+                        out.append(("C10:element-structure-depends-on-text", "stand-alone page of the file %r (%s document, %r): elements differ from those of the same document named plain.md" % (nm + ".md", kind, kw)))
+                        return out
+        return out
+    finally:
+        shutil.rmtree(scratch, ignore_errors=True)
+
+
 def check_similar_names():
     """a name that differs from the name of a sub recipe only in punctuation is a name of its own: it is shown as written, as an ingredient,
     not replaced by a link to the look-alike"""
@@ -354,6 +390,9 @@ def oracle(run):
         run.case(("markdown-text", name), True, kind="markdown-text")
         for sig, detail in check_markdown_text(name):
             run.violate(sig, detail, {"markdown_text": name})
+    run.case(("file-names",), True, kind="file-names")
+    for sig, detail in check_file_names()[:3]:
+        run.violate(sig, detail, {"file_names": True})
     run.case(("similar-names",), True, kind="similar-names")
     for sig, detail in check_similar_names()[:3]:
         run.violate(sig, detail, {"similar_names": True})
@@ -376,6 +415,11 @@ def oracle(run):
 
 
 def replay(run, obj):
+    if obj["replay"].get("file_names"):
+        res = check_file_names()
+        for x in res:
+            print(*x)
+        return bool(res)
     r = obj["replay"]
     if "similar_names" in r:
         res = check_similar_names()
